@@ -22,7 +22,7 @@ type Prop struct{}
 func (Prop) ID() string    { return "C06" }
 func (Prop) Level() string { return "exploration" }
 func (Prop) Rule() string {
-	return "a change set S (DAG with snapshots) is produced by honest authors in a simulated lossy network of real sync trees and converged; then K fresh receivers (6 quick / 12 thorough) each get S as a random permutation split into random batches (with the full sender's heads and snapshot path, or the heads of what was offered so far), with duplicated batches, the full set re-offered until held; after every addition the presented sequence (IterateRoot), AddResult.Mode and the stored sequence are checked, and at the end incremental, reopened, history (full and at a random earlier change) and the simulator replicas' own orders are compared. Second workload small-dags: every honest two-author history of <= 3 (quick) / 4 (thorough) steps, each step (author, plain|snapshot, synced-before or not), enumerated exhaustively, 3 receivers each. Non-trivial = S has a fork (>=2 heads at some point or >=1 merge) and >= 5 changes; distinct = hash(S ids, arrival order)."
+	return "a change set S (DAG with snapshots) is produced by honest authors in a simulated lossy network of real sync trees and converged; then K fresh receivers (6 quick / 12 thorough) each get S as a random permutation split into random batches (with the full sender's heads and snapshot path, or the heads of what was offered so far), with duplicated batches, the full set re-offered until held; after every addition the presented sequence (IterateRoot), AddResult.Mode and the stored sequence are checked, and at the end incremental, reopened, history (full and at a random earlier change) and the simulator replicas' own orders are compared. Second workload small-dags: every honest two-author history of <= 3 (quick) / 4 (thorough) steps, each step (author, plain|snapshot, synced-before or not), enumerated exhaustively, 3 receivers each. Third workload fan-out: 5-7 authors repeatedly edit concurrently from a common state (one change gets 4-7 concurrent children), 4 receivers each. Non-trivial = S has a fork (>=2 heads at some point or >=1 merge) and >= 5 changes; distinct = hash(S ids, arrival order)."
 }
 func (Prop) Assumptions() []string {
 	return []string{"every change's snapshot base is what an honest builder chose (changes come from real AddContent calls)", "ACL fixed"}
@@ -36,6 +36,7 @@ func (Prop) Plan(tier string) []lib.Workload {
 	return []lib.Workload{
 		{Name: "changesets", Cases: n, MinNontrivial: n / 2},
 		{Name: "small-dags", Cases: smallDagCases(tier), MinNontrivial: 50, Exhaustive: true},
+		{Name: "fan-out", Cases: fanoutCases(tier), MinNontrivial: fanoutCases(tier) / 2},
 	}
 }
 
@@ -55,6 +56,76 @@ func smallDagCases(tier string) int {
 		n += p
 	}
 	return n
+}
+
+func fanoutCases(tier string) int {
+	if tier == "thorough" {
+		return 1500
+	}
+	return 24
+}
+
+// fan-out: 5-7 authors repeatedly edit concurrently from a common synced state, so that one change
+// gets many concurrent children (the sibling order is where arrival order could leak into the
+// presented order); added after seeded change C06-1 was caught only narrowly.
+func runFanout(c *lib.Case) {
+	n := 5 + c.Rng.Intn(3)
+	s, err := netsim.New(netsim.Config{Dir: c.TmpDir, Replicas: n, Rng: c.Rng, Encrypted: c.Rng.Intn(2) == 0})
+	if err != nil {
+		c.Inconclusive("setup: " + err.Error())
+		return
+	}
+	defer s.Close()
+	drain := func() {
+		for k := 0; len(s.InFlight) > 0 && k < 100000; k++ {
+			s.Deliver(c.Rng.Intn(len(s.InFlight)), -1, false)
+		}
+	}
+	rounds := 2 + c.Rng.Intn(3)
+	width := 0
+	for r := 0; r < rounds; r++ {
+		// every author (or a random subset of at least 4) edits from the same state; nothing is delivered meanwhile
+		var authors []int
+		for i := 0; i < n; i++ {
+			if i < 4 || c.Rng.Intn(3) > 0 {
+				authors = append(authors, i)
+			}
+		}
+		for _, a := range authors {
+			if _, err := s.LocalAdd(a, r > 0 && c.Rng.Intn(8) == 0, 1+c.Rng.Intn(40)); err != nil {
+				c.Violation("fan-out:local-add-failed", "local AddContent failed", err.Error())
+				return
+			}
+		}
+		if len(authors) > width {
+			width = len(authors)
+		}
+		drain()
+		// one replica merges the fan before the next round
+		if _, err := s.LocalAdd(c.Rng.Intn(n), false, 3); err != nil {
+			c.Violation("fan-out:local-add-failed", "local AddContent failed", err.Error())
+			return
+		}
+		drain()
+	}
+	for i := 0; i < n; i++ {
+		if err := s.SyncWithPeer(i, (i+1)%n); err != nil {
+			c.Inconclusive("sync: " + err.Error())
+			return
+		}
+		drain()
+	}
+	a, _ := s.Replicas[0].StoredIds()
+	for _, r := range s.Replicas[1:] {
+		b, _ := r.StoredIds()
+		if !eq(a, b) {
+			c.Inconclusive("fan-out set did not converge (C01's business)")
+			return
+		}
+	}
+	c.Count("fanout.sets", 1)
+	c.Count(fmt.Sprintf("fanout.width_%d", width), 1)
+	checkSetK(c, s, 4, fmt.Sprintf("fanout/n%d/r%d/%d", n, rounds, c.Index))
 }
 
 func decodeSmallDag(idx int) []int {
@@ -123,6 +194,10 @@ var bg = context.Background()
 func (Prop) RunCase(c *lib.Case) {
 	if c.Workload == "small-dags" {
 		runSmallDag(c)
+		return
+	}
+	if c.Workload == "fan-out" {
+		runFanout(c)
 		return
 	}
 	hook := &c01.Hook{AtEnd: func(s *netsim.Sim) { checkSet(c, s) }}
